@@ -137,9 +137,27 @@ def run(sc, workdir, nextest_bin=NEXTEST):
     t0 = now_ns()
     stall = getattr(sc, "stall_stderr_s", 0)
     errf = open(os.path.join(workdir, "stderr.txt"), "wb")
-    proc = subprocess.Popen(cmd, cwd=WS, env=env, stdout=open(os.path.join(workdir, "stdout.txt"), "wb"), stderr=(subprocess.PIPE if stall else errf),
+    close_on = getattr(sc, "close_stderr_on", None)
+    proc = subprocess.Popen(cmd, cwd=WS, env=env, stdout=open(os.path.join(workdir, "stdout.txt"), "wb"), stderr=(subprocess.PIPE if (stall or close_on) else errf),
                             stdin=subprocess.DEVNULL, start_new_session=True)
     drain = None
+    if close_on:
+        # a terminal that goes away: stderr is read until the event log shows `close_on`, then the read end is closed — nextest's
+        # next write to it fails (EPIPE), which is a reporting failure
+        def closer():
+            import select
+            pat = re.compile(close_on); fd = proc.stderr.fileno()
+            while True:
+                try: seen = pat.search(open(evlog, errors="replace").read()) is not None
+                except FileNotFoundError: seen = False
+                rl, _, _ = select.select([fd], [], [], 0.005)
+                if rl:
+                    b = os.read(fd, 65536)
+                    if not b: break
+                    errf.write(b); errf.flush()
+                if seen:
+                    proc.stderr.close(); break
+        drain = threading.Thread(target=closer, daemon=True); drain.start()
     if stall:
         # a reader that does not read for `stall` seconds: nextest's writes to its terminal block once the pipe is full
         def drainer():
